@@ -15,7 +15,7 @@ ASSUMPTIONS = [
     "backoff_ms_current * multiplier does not overflow u64; timer granularity (1 ms) is not modelled, all scripted durations are whole milliseconds",
     "a policy with initial > max waits `initial` after the first failure and is capped only from the second (stated as is in backoff_sequence / backoff_closed_form)",
     "the first init failing means init_reconnecting_stream returns Err: no stream exists (init_failure_delivers_nothing); the property text's 're-initialisation' is read as attempts after the first success",
-    "init_market_stream itself (consumer.rs:44-80) needs a live exchange connector; the harness composes the same three combinators in the same order over a scripted init closure",
+    "init_market_stream itself (consumer.rs:44-80) is run, as it is, by sub-check C12I over a scripted harness-local connector (two exchange ids, scripted MarketStream::init); the C12 harness proper composes the same three combinators in the same order over a scripted init closure",
     "merge: 'every item up to the point either input ends' is read at the stream level: the input whose end ends the merged stream is delivered completely; items of the other input that were queued but not yet polled when the end is observed are dropped by design (merge.rs doc comment: terminate when either stream terminates)",
 ]
 SOURCE_FILES = ["barter-data/src/streams/reconnect/stream.rs", "barter-data/src/streams/reconnect/mod.rs",
@@ -74,4 +74,4 @@ LEVEL_NOTE = ("Trusted: Lean kernel; axioms propext/Classical.choice/Quot.sound 
               "a_first alternation as such (taken as an input; theorems quantify over all schedules), timer granularity, u64 overflow of the back-off product, the spec oracle "
               "for merge prints only observations on which all allowed behaviours agree. Readings: first init failure = no stream; a policy with initial > max waits initial "
               "first; merge drops the not-yet-polled queued items of the input that did not end (documented behaviour of merge.rs).")
-SUBCHECKS = ["C12W"]
+SUBCHECKS = ["C12W", "C12I"]
